@@ -48,6 +48,15 @@ def build_menu():
     pack("bc", [26, 70, 10], 36, "dict"); pack("bc", [10, 26, 99, 20], 36, "valueof"); pack("bfd", [26, 70, 10], 36, "dict"); pack("ff", [29, 22, 90], 58, "valueof")
     pack("bc", X, 36, "dict"); pack("bc", X, 36, "valueof"); pack("bc", Y, 58, "dict")
     part("cbldm", W + [-5], 2, "dict"); part("cbldm", W, 2, "dict", "Partition", d=0); part("ilp", W[:4], 2, "dict", "Sums", o="diff", infeasible=1)
+    # the same NAMES with different values (dict inputs of equal length share their keys) - what a cache keyed by item names would confuse
+    W2 = [10, 46, 13, 39, 16, 27, 26]; W3 = [5, 5, 5, 9, 1, 30, 2]
+    for alg in ("snp", "rnp", "ckk", "kk", "greedy", "multifit", "cg", "dp"):
+        kw = {"o": "diff"} if alg in ("cg", "dp") else {}
+        part(alg, W, 3, "dict", "PartitionAndSumsTuple", **kw); part(alg, W2, 3, "dict", "PartitionAndSumsTuple", **kw); part(alg, W3, 3, "dict", "Sums", **kw)
+    part("snp", W[:4], 2, "dict"); part("snp", W3[:4], 2, "dict"); part("cbldm", W, 2, "dict"); part("cbldm", W3, 2, "dict")
+    Y2 = [10, 29, 17, 1, 22, 18, 19]
+    for alg in ("ff", "bfd", "bc", "tq", "dec"):
+        pack(alg, Y, 40, "dict", "PartitionAndSumsTuple"); pack(alg, Y2, 40, "dict", "PartitionAndSumsTuple")
     return M
 
 
